@@ -3,10 +3,10 @@ CONSTANTS
   Thread = {t1, t2}
   MaxObj = 4
   MaxFlush = 3
-  UseStoreSchema = FALSE
+  UseStoreSchema = TRUE
   MarkWritten = TRUE
-  EpochGuard = FALSE
-  MergeAll = TRUE
+  EpochGuard = TRUE
+  MergeAll = FALSE
 SPECIFICATION Spec
 INVARIANTS Stable Injective Function
 CHECK_DEADLOCK FALSE
